@@ -42,3 +42,13 @@ claim('C01',
       '(whitespace/comment/paragraph next to a construct), which holes ranging over all Unicode enumerate.',
       'Trusts CrossHair/z3; bounds and skeleton list in props/C01.py / vlib/parsefam.py; tree walk over public attributes.',
       'DESIGN.md section 4 C01')
+claim('C14',
+      'Bounded-exhaustive symbolic execution of the real LatexContextDb over build histories: operation selectors '
+      '(category kind, 8 placements, definition sets, unknown specs) are symbolic integers, so the solver-driven search '
+      'enumerates every history of up to 3 additions and every pair of 8 derivations (extended_with / filtered_context) '
+      'on top of 2 additions; after each history every lookup, test_for_specials, categories() and iter_*_specs() is '
+      'compared with a reference model and with the database\'s own reported order; parents must answer as before; '
+      'frozen databases must refuse changes. Right level: the defects are ordering slips visible only for particular '
+      'placement sequences (insert_after on an appended category; filtering an auto-extended database).',
+      'Trusts CrossHair/z3; reference model in props/C14.py written from the docstrings; bounded history length and name universe.',
+      'DESIGN.md section 4 C14')
